@@ -1,7 +1,100 @@
-(** C16 - statements follow (work in progress in this commit) *)
+(** C16 - Notification hooks fire exactly once and in order around each link
+    change.  Only statements; proofs are [exact <lemma>]. *)
 Require Import AT.Model.Base AT.Model.Heap AT.Model.Mutate AT.Spec.MutSpec.
+Require AT.Proofs.MutParent AT.Proofs.MutHistory.
+Import AT.Proofs.MutParent.
 
-Theorem C16_noop_example :
-  fst (run_op true false no_faults reentry_fuel (SetParent 1 (VNode 0)) (start (attach_links (init 2) 1 0))) = Ok tt.
-Proof. reflexivity. Qed.
-Print Assumptions C16_noop_example.
+(** a parent change that actually happens logs exactly
+    [_pre_detach(old); _post_detach(old)] if the node had a parent, then
+    [_pre_attach(new); _post_attach(new)] if it gets one - each once, on the
+    moving node, with the right argument, each observing the state before /
+    after its step ([log_set_parent] carries the state snapshots) *)
+Theorem C16_parent_log : forall typed asrt n v s,
+  let h := heap_of s in
+  Inv h -> n < length h -> (match v with Some q => q < length h | None => True end) ->
+  loop_refused h n v = false ->
+  log (snd (set_parent typed asrt no_faults n (opt_value v) s)) = log s ++ log_set_parent h n v /\
+  cnt (snd (set_parent typed asrt no_faults n (opt_value v) s)) = length (log_set_parent h n v) + cnt s.
+Proof.
+  intros typed asrt n v s h I Bn Bv LR.
+  pose proof (set_parent_run typed asrt n v s I Bn Bv) as R. cbv zeta in R. fold h in R.
+  rewrite LR in R. rewrite R. split; reflexivity.
+Qed.
+Print Assumptions C16_parent_log.
+
+(** assigning the current parent (or None to a root) calls nothing *)
+Theorem C16_noop_silent : forall typed asrt faults n v s,
+  parent (heap_of s) n = v -> set_parent typed asrt faults n (opt_value v) s = (Ok tt, s).
+Proof. exact set_parent_noop. Qed.
+Print Assumptions C16_noop_silent.
+
+(** a refused parent assignment calls nothing *)
+Theorem C16_refused_silent : forall typed asrt n v s,
+  let h := heap_of s in
+  Inv h -> n < length h -> (match v with Some q => q < length h | None => True end) ->
+  loop_refused h n v = true ->
+  set_parent typed asrt no_faults n (opt_value v) s = (Err LoopError, s).
+Proof.
+  intros typed asrt n v s h I Bn Bv LR.
+  pose proof (set_parent_run typed asrt n v s I Bn Bv) as R. cbv zeta in R. fold h in R.
+  rewrite LR in R. exact R.
+Qed.
+Print Assumptions C16_refused_silent.
+
+(** what the hooks observe: _pre_detach - still a child of old;
+    _post_detach/_pre_attach - a root, in neither children list;
+    _post_attach - last child of new *)
+Theorem C16_snapshots : forall h n q, Inv h -> n < length h -> q < length h ->
+  let h1 := eff_set_parent h n None in
+  let h2 := eff_set_parent h1 n (Some q) in
+  (parent h1 n = None /\ forall m, ~ In n (children h1 m)) /\
+  (parent h2 n = Some q /\ last (children h2 q) n = n /\ In n (children h2 q)) /\
+  (forall p, parent h n = Some p -> In n (children h p)).
+Proof. exact snapshots. Qed.
+Print Assumptions C16_snapshots.
+
+(** every way a parent assignment can end under ANY fault oracle, with the
+    exact state and log it leaves ([sp_end] enumerates them): in particular
+    no hook is ever invoked twice and their order is fixed *)
+Theorem C16_parent_all_endings : forall typed asrt faults n v h r s',
+  set_parent typed asrt faults n (opt_value v) (start h) = (r, s') ->
+  sp_end h n v r (heap_of s') (log s').
+Proof. exact set_parent_ends. Qed.
+Print Assumptions C16_parent_all_endings.
+
+(** an exception from a post hook propagates without undoing the step that
+    preceded it *)
+Theorem C16_post_no_rollback : forall typed asrt faults n v h r s',
+  set_parent typed asrt faults n (opt_value v) (start h) = (r, s') ->
+  forall i, r = Err (HookExn i) ->
+    (kind_at (log s') i = Some PostDetach -> heap_of s' = after_detach h n) /\
+    (kind_at (log s') i = Some PostAttach ->
+       exists q, v = Some q /\ heap_of s' = attach_links (after_detach h n) n q).
+Proof. exact set_parent_post_fault. Qed.
+Print Assumptions C16_post_no_rollback.
+
+(** Not yet proved in Coq (kept visible): the wrapping of the per-child calls
+    by the four *_children hooks.  Decided on every explored call by
+    evaluating [expected_log] on the implementation's observed logs. *)
+Definition C16_children_log_full : Prop :=
+  forall typed asrt o h, Inv h -> valid_op (length h) o ->
+    must_refuse typed h o = None ->
+    log (snd (run_op typed asrt no_faults reentry_fuel o (start h))) = expected_log typed h o.
+
+Example C16_example :
+  let h := attach_links (init 3) 1 0 in
+  Inv h /\
+  log_set_parent h 1 (Some 2) =
+    [Ev PreDetach 1 [0] h; Ev PostDetach 1 [0] (init 3);
+     Ev PreAttach 1 [2] (init 3); Ev PostAttach 1 [2] (attach_links (init 3) 1 2)] /\
+  fst (log_set_children h 0 [2; 1]) =
+    [Ev PreDetachChildren 0 [1] h; Ev PreDetach 1 [0] h; Ev PostDetach 1 [0] (init 3);
+     Ev PostDetachChildren 0 [1] (init 3); Ev PreAttachChildren 0 [2; 1] (init 3);
+     Ev PreAttach 2 [0] (init 3); Ev PostAttach 2 [0] (attach_links (init 3) 2 0);
+     Ev PreAttach 1 [0] (attach_links (init 3) 2 0);
+     Ev PostAttach 1 [0] (attach_links (attach_links (init 3) 2 0) 1 0);
+     Ev PostAttachChildren 0 [2; 1] (attach_links (attach_links (init 3) 2 0) 1 0)].
+Proof.
+  cbv zeta. split; [apply AT.Proofs.MutHistory.inv_b_sound; vm_compute; reflexivity|].
+  split; vm_compute; reflexivity.
+Qed.
